@@ -531,6 +531,22 @@ func c13ClientRound(g *gen.G, sc dyn.Schema, dir string, w *emit.Writer, goFail 
 		c13MutateAll(g, db, T, m)
 	}
 	check("Get")
+	// Get into a model that was used before: what it held must be replaced, not merged with the cached row
+	for u := range want {
+		pre := map[string]val.Val{}
+		for _, c := range T.Cols {
+			pre[c.Name] = g.Value(c, 9, 3)
+		}
+		m := db.Make("T", u, pre)
+		if err := cl.Get(ctx, m); err != nil {
+			goFail("Get", "Get into a used model: "+err.Error())
+			continue
+		}
+		if !rowsEqual(db.RowMap(m, "T"), want[u]) {
+			goFail("Get", fmt.Sprintf("Get into a model that held other values returns a row that differs from the cached one (row %s)", u))
+		}
+	}
+	check("Get into a used model")
 	// List
 	lp := reflect.New(reflect.SliceOf(reflect.TypeOf(db.New("T"))))
 	if err := cl.List(ctx, lp.Interface()); err != nil {
